@@ -239,6 +239,18 @@ def miri_env(cfg):
     env = base_env()
     env["MIRIFLAGS"] = MIRI_FLAGS
     env["GLAMSIM_OPS"] = gen_ops(cfg)[0]
+    # cargo-miri records the bin crate's build environment once and replays it at run time; cargo does not notice a changed
+    # env!() input by itself. Invalidate the recorded invocation whenever the ops path is not the one recorded before.
+    td = target_dir(cfg)
+    stamp = os.path.join(td, "glamsim-ops-path.stamp")
+    if os.path.isdir(td) and (not os.path.exists(stamp) or open(stamp).read() != env["GLAMSIM_OPS"]):
+        for root, dirs, files in os.walk(td):
+            for n in list(dirs) + files:
+                if n.startswith("glamsim") and n != "glamsim-ops-path.stamp":
+                    pth = os.path.join(root, n)
+                    shutil.rmtree(pth, ignore_errors=True) if os.path.isdir(pth) else os.unlink(pth)
+    os.makedirs(td, exist_ok=True)
+    open(stamp, "w").write(env["GLAMSIM_OPS"])
     return env
 
 
@@ -641,13 +653,13 @@ def check_c17(tier, seed):
     cfgs, skipped = available_configs(["sse2-rel", "scalar", "coresimd"] + (["sse2-dbg", "native"] if tier == "thorough" else []))
     build_all(cfgs)
     hist = {"quick": 1500, "thorough": 40000}[tier]
-    det = selftest_determinism("sse2-rel", seed, [["c17", "--histories", 60]], seeds=2 if tier == "quick" else 16)
+    det = selftest_determinism("sse2-rel", seed, [["c17", "--histories", 60, "--no-grid"]], seeds=2 if tier == "quick" else 16)
     results, results_ff = [], []
     for c in cfgs:
         h = hist if c != "sse2-dbg" else max(200, hist // 10)
         results.append((c, run_sim(c, ["c17", "--seed", seed, "--histories", h, "--workers", NCPU])))
         # the same histories without any injected fault, so that a fault relaxation cannot hide an ordinary bug
-        results_ff.append((c, run_sim(c, ["c17", "--seed", seed, "--histories", max(100, h // 3), "--workers", NCPU, "--no-faults"])))
+        results_ff.append((c, run_sim(c, ["c17", "--seed", seed, "--histories", max(100, h // 3), "--workers", NCPU, "--no-faults", "--no-grid"])))
     viols, fired, effective, probes = [], {}, {}, {}
     evals = collect(results, viols, fired, effective, probes)
     evals += collect(results_ff, viols, {}, {}, {})
@@ -655,7 +667,7 @@ def check_c17(tier, seed):
     if tier == "thorough":
         for mc in ["miri", "miri-scalar", "miri-coresimd"]:
             try:
-                r = run_miri(mc, ["c17", "--seed", seed, "--histories", 3, "--workers", 1], groups=[[t] for g in TYPE_GROUPS for t in g][:64])
+                r = run_miri(mc, ["c17", "--seed", seed, "--histories", 3, "--workers", 1, "--no-grid"], groups=[[t] for g in TYPE_GROUPS for t in g][:64])
                 monitors[mc] = {"histories": r["evaluations"], "ub_reports": 0}
                 evals += r["evaluations"]
                 for v in r["violations"]:
@@ -718,7 +730,7 @@ def check_c18(tier, seed):
     except CrashFound as e:
         det = {"aborted_by_memory_fault": e.what}
         crash_viols.append(crash_violation(e, seed, "Guarded"))
-    results_m, results_p, results_i = [], [], []
+    results_m, results_p, results_i, results_c = [], [], [], []
     for c in cfgs:
         try:
             results_m.append((c, run_sim(c, ["c18m", "--seed", seed, "--rounds", rounds])))
@@ -726,10 +738,12 @@ def check_c18(tier, seed):
             crash_viols.append(crash_violation(e, seed, "Guarded"))
         results_p.append((c, run_sim(c, ["c18p", "--seed", seed, "--samples", samples if c != "sse2-dbg" else max(8, samples // 2), "--workers", NCPU])))
         results_i.append((c, run_sim(c, ["c18i", "--seed", seed, "--samples", 300 if tier == "quick" else 20000, "--workers", NCPU])))
+        results_c.append((c, run_sim(c, ["conv", "--seed", seed, "--rounds", 200 if tier == "quick" else 20000])))
     viols, fired, effective, probes = list(crash_viols), {}, {}, {}
     evals = collect(results_m, viols, fired, effective, probes)
     evals += collect(results_p, viols, fired, effective, probes)
     evals += collect(results_i, viols, fired, effective, probes)
+    evals += collect(results_c, viols, fired, effective, probes)
     monitors = {}
     # machine-level monitors: Miri (quick: subset of lengths/offsets; thorough: full product, 3 backends), ASan (thorough)
     miri_cfgs = ["miri"] if tier == "quick" else ["miri", "miri-scalar", "miri-coresimd"]
@@ -748,9 +762,20 @@ def check_c18(tier, seed):
     # the pointer-cast / intrinsic conversions (to_array, AsRef/AsMut, Deref fields, Into array/tuple/Vec3/Vec4, from_slice,
     # write_to_slice) of the SIMD-backed types, as short C17 histories under Miri (text paths skipped: float formatting
     # dominates Miri's run time and touches no glam unsafe code)
+    try:
+        r = run_miri("miri", ["conv", "--seed", seed, "--rounds", 3 if tier == "quick" else 40])
+        monitors["miri-matrix-conversions"] = {"calls": r["evaluations"], "ub_reports": 0, "violations": r["violations_total"]}
+        evals += r["evaluations"]
+        for v in r["violations"]:
+            v = dict(v); v["config"] = "miri"; viols.append(v)
+    except CrashFound as e:
+        monitors["miri-matrix-conversions"] = {"ub_reports": 1, "what": e.what}
+        viols.append({"class": "memory-fault:matrix-conversions", "config": "miri", "detail": e.what,
+                      "replay": {"property": "C18", "part": "conv", "seed": seed, "rounds": 3, "violation_class": "memory-fault:matrix-conversions",
+                                 "observed": e.what}})
     conv_types = ["Vec3A", "Vec4", "Quat", "BVec3A", "BVec4A"] + (["Vec3", "DVec4", "DQuat", "IVec3", "U8Vec4"] if tier == "thorough" else [])
     try:
-        r = run_miri("miri", ["c17", "--seed", seed, "--histories", 2 if tier == "quick" else 12, "--workers", 1, "--no-fmt"],
+        r = run_miri("miri", ["c17", "--seed", seed, "--histories", 2 if tier == "quick" else 12, "--workers", 1, "--no-fmt", "--no-grid"],
                      groups=[[t] for t in conv_types])
         monitors["miri-conversions"] = {"histories": r["evaluations"], "steps": r["extra"].get("steps_executed"), "ub_reports": 0,
                                         "violations": r["violations_total"]}
@@ -794,6 +819,7 @@ def check_c18(tier, seed):
         "memory_cases_per_config": {c: r["evaluations"] for c, r in results_m},
         "memory_extra": refm["extra"],
         "hostile_calls_per_config": {c: r["evaluations"] for c, r in results_p},
+        "conversion_workload_calls_per_config": {c: r["evaluations"] for c, r in results_c},
         "integer_operator_cases_per_config": {c: r["evaluations"] for c, r in results_i},
         "integer_operators": results_i[0][1]["extra"]["integer_ops"],
         "integer_primitive_panics_matched_per_config": {c: r["faults_effective"].get("INT_EDGE_VALUE", 0) for c, r in results_i},
